@@ -388,7 +388,7 @@ Lemma ipcp_wire_ack : forall c st p id wire acts st' p' id' os v,
   (forall o, In o os -> o_type o = 3%N -> o_data o = v) /\
   (forall o, In o os -> length (o_data o) = 4%nat /\ (o_type o = 3%N \/ o_type o = 129%N \/ o_type o = 131%N)).
 Proof.
-  intros c st p id wire acts st' p' id' os v Hu Hv Hin Hs. unfold ipcp_input in Hin.
+  intros c st p id wire acts st' p' id' os v Hu Hv Hin Hs. unfold ipcp_input, ipcp_req_c in Hin.
   destruct (parse_wire wire) as [opts| | |] eqn:P; try (inversion Hin; subst; contradiction).
   destruct (ipcp_req c p opts) as [r p1] eqn:R.
   destruct (rcr_event st id r) as [a s1] eqn:E. inversion Hin; subst.
@@ -397,8 +397,8 @@ Proof.
   destruct (ipcp_partition c p opts) as (A & B & C). rewrite R in A, B, C. simpl in A, B, C.
   destruct (good_all_ack (ipcp_kind c) opts r A B C G) as [Hall _].
   rewrite Hall. split; [reflexivity|]. split; [reflexivity|].
-  destruct (ipcp_ack_only_assigned c p opts r p' v Hu Hv R) as (_ & H2 & _).
-  destruct (ipcp_unknown_rejected c p opts r p' R) as (_ & H3 & _).
+  destruct (ipcp_ack_only_assigned c p opts r p1 v Hu Hv R) as (_ & H2 & _).
+  destruct (ipcp_unknown_rejected c p opts r p1 R) as (_ & H3 & _).
   rewrite Hall in H2, H3. split; [exact H2|]. intros o Ho. destruct (H3 o Ho) as (_ & X & Y). auto.
 Qed.
 
@@ -712,7 +712,7 @@ Qed.
 Lemma sess_start_ok : forall ow aaa d orc f, sess_ok (sess_start_dns repaired ow aaa d orc f).
 Proof.
   intros ow aaa d orc f. unfold sess_start_dns.
-  destruct (start_ncp_spec ow (with_refuse (mk_ipcp_cfg None None) f) 0 ipeer0 (extract_ip repaired aaa) false [] (dns_of d) orc)
+  destruct (start_ncp_spec ow (with_choice (mk_ipcp_cfg None None) f) 0 ipeer0 (extract_ip repaired aaa) false [] (dns_of d) orc)
     as [(v & Hv & Hl & Hz & Ha & Hp)|(_ & H2 & _ & H4 & H5)].
   - right. exists v. repeat split; auto.
   - left. repeat split; auto.
@@ -794,7 +794,7 @@ Proof.
   destruct Hinv as (v & Hv & Hl & Hz & Ha & Hp).
   assert (Hto : to4o (ic_assigned (s_cfg s)) = Some v).
   { rewrite Hv. simpl. apply to4_of_len4; auto. }
-  unfold ipcp_input.
+  unfold ipcp_input, ipcp_req_c.
   destruct (parse_wire wire) as [opts| | |] eqn:P;
     try solve [simpl; split; [exists v; simpl; repeat split; auto|auto]].
   destruct (ipcp_req (s_cfg s) (s_peer s) opts) as [r p'] eqn:R.
@@ -806,8 +806,10 @@ Proof.
     right. rewrite H. f_equal.
     apply ipcp_kind_ack in K. destruct K as (Hlen & [(_ & _ & He)|[X|X]]); try (rewrite X in T; discriminate).
     specialize (He Hu). rewrite Hto in He. simpl in He. apply ip_equal_len4 in He; auto. }
-  pose proof (on_act_fold_inv v p' a (s_addr s) (s_open s) Hl Hp' Ha) as [H1 H2].
-  destruct (fold_left (on_act repaired p') a (s_addr s, s_open s)) as [ad op] eqn:F.
+  remember (if ic_stage (s_cfg s) && negb (is_good0 r) then s_peer s else p') as pc.
+  assert (Hpc : pp_addr pc = None \/ pp_addr pc = Some v) by (subst pc; destruct (_ && _); assumption).
+  pose proof (on_act_fold_inv v pc a (s_addr s) (s_open s) Hl Hpc Ha) as [H1 H2].
+  destruct (fold_left (on_act repaired pc) a (s_addr s, s_open s)) as [ad op] eqn:F.
   simpl in *. split; [|exact H2]. exists v. simpl. repeat split; auto.
 Qed.
 
@@ -819,7 +821,7 @@ Proof.
   destruct e as [id wire| |w|w|w| |tid| | |aaa orc]; [| | | | | | | | |discriminate]; cbn [sess_step_live];
     unfold sess_down, sess_fsm_only; rewrite ?H1, ?H2, ?H3; try (simpl; auto; fail);
     try (destruct (s_owner s); simpl; rewrite ?H1, ?H2, ?H3; simpl; auto; fail).
-  unfold ipcp_input. destruct (parse_wire wire); simpl; auto.
+  unfold ipcp_input, ipcp_req_c. destruct (parse_wire wire); simpl; auto.
   destruct (ipcp_req (s_cfg s) (s_peer s) a) as [r p']. simpl. auto.
 Qed.
 
@@ -891,7 +893,7 @@ Qed.
 Lemma sess_start_ok2 : forall ow aaa d orc f, sess_ok2 (sess_start_dns repaired ow aaa d orc f).
 Proof.
   intros ow aaa d orc f. unfold sess_start_dns.
-  destruct (start_ncp_spec ow (with_refuse (mk_ipcp_cfg None None) f) 0 ipeer0 (extract_ip repaired aaa) false [] (dns_of d) orc)
+  destruct (start_ncp_spec ow (with_choice (mk_ipcp_cfg None None) f) 0 ipeer0 (extract_ip repaired aaa) false [] (dns_of d) orc)
     as [(v & Hv & Hl & Hz & (a & Ha & Hto) & Hp)|(_ & H2 & _ & H4 & H5)].
   - right. split; [exists v; repeat split; auto; right; exists a; auto|rewrite Ha; discriminate].
   - left. repeat split; auto.
@@ -912,7 +914,7 @@ Proof.
     try (unfold sess_down; destruct (s_owner s); try reflexivity;
          pose proof (F (s_cfg s) (down_event (s_fsm s)) eq_refl) as X;
          destruct (sess_fsm_only fl s (s_cfg s) (down_event (s_fsm s))); simpl in *; exact X).
-  unfold ipcp_input. destruct (parse_wire wire); simpl; auto.
+  unfold ipcp_input, ipcp_req_c. destruct (parse_wire wire); simpl; auto.
   destruct (ipcp_req _ _ _). destruct (rcr_event _ _ _). destruct (fold_left _ _ _). reflexivity.
 Qed.
 
@@ -981,9 +983,9 @@ Proof.
   destruct (usable a) eqn:Hu; split; intros H; try discriminate.
   - destruct (usable_spec _ Hu) as (v & Hv & Hl & Hz).
     destruct a as [x|]; [|discriminate].
-    assert (E : (match ow, Some x with LNS, None => (with_refuse (mk_ipcp_cfg None None) f, ipeer0) | _, _ =>
-                   ipcp_set_peer repaired (with_refuse (mk_ipcp_cfg None None) f) ipeer0 (Some x) end)
-                = ipcp_set_peer repaired (with_refuse (mk_ipcp_cfg None None) f) ipeer0 (Some x)) by (destruct ow; reflexivity).
+    assert (E : (match ow, Some x with LNS, None => (with_choice (mk_ipcp_cfg None None) f, ipeer0) | _, _ =>
+                   ipcp_set_peer repaired (with_choice (mk_ipcp_cfg None None) f) ipeer0 (Some x) end)
+                = ipcp_set_peer repaired (with_choice (mk_ipcp_cfg None None) f) ipeer0 (Some x)) by (destruct ow; reflexivity).
     rewrite E. simpl in Hv. destruct ow; simpl; rewrite Hv; simpl; rewrite (to4_of_len4 v Hl), Hz; auto.
   - simpl. repeat split.
 Qed.
@@ -1010,7 +1012,7 @@ Proof.
   intros fl ops. induction ops as [|o ops IH]; intros s c os r H; simpl in H; [contradiction|].
   destruct o as [q|q|q|q|a|d1 d2|a]; simpl in H;
     try (eapply IH; exact H).
-  - destruct (ipcp_req (io_cfg s) (io_peer s) q) as [r0 p'] eqn:R. simpl in H.
+  - unfold ipcp_req_c in H. destruct (ipcp_req (io_cfg s) (io_peer s) q) as [r0 p'] eqn:R. simpl in H.
     destruct H as [H|H]; [|eapply IH; exact H].
     inversion H; subst. rewrite (ipcp_req_peer_independent _ ipeer0 (io_peer s)). rewrite R. reflexivity.
 Qed.
@@ -1020,7 +1022,7 @@ Lemma iobj_run_assigned : forall fl ops s,
 Proof.
   intros fl ops. induction ops as [|o ops IH]; intros s; simpl; [reflexivity|].
   rewrite IH. destruct o as [q|q|q|q|a|d1 d2|a]; simpl; try reflexivity.
-  - destruct (ipcp_req (io_cfg s) (io_peer s) q). reflexivity.
+  - unfold ipcp_req_c. destruct (ipcp_req (io_cfg s) (io_peer s) q). reflexivity.
   - rewrite ipcp_learn_assigned. reflexivity.
   - rewrite ipcp_learn_assigned. reflexivity.
 Qed.
@@ -1039,7 +1041,7 @@ Proof.
   { intros s' H' E. destruct (IH _ _ _ _ H') as (pre & post & -> & Hc).
     exists (o :: pre), post. split; [reflexivity|]. rewrite Hc, <- E. destruct o; reflexivity. }
   destruct o as [q|q|q|q|a|d1 d2|a]; simpl in H.
-  - destruct (ipcp_req (io_cfg s) (io_peer s) q) as [r0 p'] eqn:R. simpl in H.
+  - unfold ipcp_req_c in H. destruct (ipcp_req (io_cfg s) (io_peer s) q) as [r0 p'] eqn:R. simpl in H.
     destruct H as [H|H].
     + inversion H; subst. exists [], ops. split; reflexivity.
     + eapply G; [exact H|reflexivity].
@@ -1148,7 +1150,8 @@ Proof.
               forall x, pp_addr (io_peer s) = Some x -> ipcp_kind c' (mkopt 3 x) = KAck).
   { intros c' E Er x Hx. rewrite (ipcp_kind3_assigned c' (io_cfg s)); auto. }
   destruct o as [q|q|q|q|a|d1 d2|a]; simpl.
-  - destruct (ipcp_req (io_cfg s) (io_peer s) q) as [r p'] eqn:R. simpl. intros x Hx.
+  - unfold ipcp_req_c. destruct (ipcp_req (io_cfg s) (io_peer s) q) as [r p'] eqn:R. simpl. intros x Hx.
+    destruct (ic_stage (io_cfg s) && negb (is_good0 r)); [apply H; exact Hx|].
     pose proof (ipcp_fold_peer_addr (io_cfg s) q res0 (io_peer s)) as F.
     unfold ipcp_req in R. rewrite R in F. simpl in F.
     destruct F as [F|(o & Ho & Ko & To & F)].
@@ -1197,7 +1200,7 @@ Lemma ipcp_wire_packet : forall c st p id wire acts st' p',
   | _ => acts = []
   end.
 Proof.
-  intros c st p id wire acts st' p' H. unfold ipcp_input in H.
+  intros c st p id wire acts st' p' H. unfold ipcp_input, ipcp_req_c in H.
   destruct (parse_wire wire) as [os| | |]; try (inversion H; reflexivity).
   destruct (ipcp_req c p os) as [r p1]. destruct (rcr_event st id r) as [a s1] eqn:E.
   inversion H; subst. simpl. eapply rcr_event_conf; eauto.
@@ -1689,9 +1692,10 @@ Proof.
   destruct e as [rid wire| |w|w|w| |tid| | |aaa orc]; cbn [sess_step_live];
     try (apply sess_fsm_only_fsm_ok; [exact Hf|]; first [apply tr_rca|apply tr_rcn|apply tr_rtr|apply tr_timeout]).
   - (* EvReq *)
-    destruct Hf as (F1 & F2 & F3). unfold ipcp_input.
+    destruct Hf as (F1 & F2 & F3). unfold ipcp_input, ipcp_req_c.
     destruct (parse_wire wire) as [os| | |]; try (simpl; unfold fsm_ok; simpl; auto).
-    destruct (ipcp_req (s_cfg s) (s_peer s) os) as [r p'].
+    destruct (ipcp_req (s_cfg s) (s_peer s) os) as [r p0].
+    generalize (if ic_stage (s_cfg s) && negb (is_good0 r) then s_peer s else p0). intros p'.
     pose proof (tr_rcr (s_fsm s) rid r) as (T1 & T2 & T3).
     destruct (rcr_event (s_fsm s) rid r) as [a st'].
     destruct (fold_left (on_act repaired p') a (s_addr s, s_open s)) as [ad op] eqn:F. simpl in *.
@@ -2148,4 +2152,23 @@ Proof.
   destruct (lcp_input repaired saved 9 lpeer0 id wire) as [[a st'] p'] eqn:E. simpl in Hacts. subst acts.
   destruct (lcp_wire_loopback repaired saved 9 lpeer0 id wire a st' p' os o Hnz E Hp eq_refl Ho Ht Hl He) as (N1 & _).
   eapply N1; exact Hs.
+Qed.
+
+(* (3) when the proposed values are recorded: either choice gives the same verdict and, with a usable
+   assignment, a remembered peer address that is nil or the assignment *)
+Lemma ipcp_req_c_verdict : forall c p os, fst (ipcp_req_c c p os) = fst (ipcp_req c p os).
+Proof. intros c p os. unfold ipcp_req_c. destruct (ipcp_req c p os). reflexivity. Qed.
+
+Lemma ipcp_req_c_peer : forall c p os,
+  snd (ipcp_req_c c p os) = p \/ snd (ipcp_req_c c p os) = snd (ipcp_req c p os).
+Proof.
+  intros c p os. unfold ipcp_req_c. destruct (ipcp_req c p os) as [r p']. simpl.
+  destruct (ic_stage c && negb (is_good0 r)); auto.
+Qed.
+
+Lemma ipcp_req_c_good : forall c p os, is_good (fst (ipcp_req c p os)) = true ->
+  ipcp_req_c c p os = ipcp_req c p os.
+Proof.
+  intros c p os G. unfold ipcp_req_c. destruct (ipcp_req c p os) as [r p']. simpl in *.
+  unfold is_good in G. unfold is_good0. rewrite G. rewrite andb_false_r. reflexivity.
 Qed.
